@@ -398,7 +398,7 @@ func (e *encoder) tagActive(tags []string) bool {
 		if t == e.tag {
 			return true
 		}
-		if t != "local" && t != "assumed" {
+		if t != "local" && t != "assumed" && t != "checked" {
 			props++
 		}
 	}
